@@ -5,6 +5,7 @@ import processscheduler as ps
 
 from symx.formula import And, Or, Not, Implies, Sum, b2i, zmax, zmin, to_z3
 from symx.harness import Ctx
+from symx import formula
 
 
 class TaskInfo:
@@ -139,3 +140,42 @@ def task_valid(ti, H, horizon):
 
 def busy(worker, ti):
     return worker._busy_intervals[ti.obj]
+
+
+def buffer_witness(phi):
+    """Explicit witnesses for the non-integer auxiliaries of the buffer encoding, read off the
+    assertions themselves: the mapping array is the store chain of all its declared accesses, each
+    quantity function is the lambda its forall-definition describes. A wrong witness can only make
+    the query spuriously sat, which the replay then rejects (inconclusive, never a verdict)."""
+    consts, _ = formula.constants(phi)
+    out = list(phi)
+    for name, c in consts.items():
+        if not z3.is_array(c):
+            continue
+        stores = []
+        for a in out:
+            if z3.is_eq(a) and a.arg(0).eq(c) and z3.is_store(a.arg(1)) and a.arg(1).arg(0).eq(c):
+                stores.append((a.arg(1).arg(1), a.arg(1).arg(2)))
+        M = z3.K(z3.IntSort(), z3.IntVal(0))
+        for t, q in stores:
+            M = z3.Store(M, t, q)
+        new = []
+        for a in out:
+            if z3.is_eq(a) and a.arg(0).eq(c) and z3.is_store(a.arg(1)) and a.arg(1).arg(0).eq(c):
+                a = z3.Select(M, a.arg(1).arg(1)) == a.arg(1).arg(2)  # M == Store(M, t, q)  <=>  M[t] == q
+            else:
+                a = z3.substitute(a, (c, M))
+            new.append(z3.simplify(a, expand_select_store=True))
+        out = new
+    fsubs = []
+    for a in out:
+        if z3.is_quantifier(a) and a.is_forall() and z3.is_app_of(a.body(), z3.Z3_OP_ITE):
+            cond, th = a.body().arg(0), a.body().arg(1)
+            if z3.is_eq(cond) and z3.is_eq(th) and z3.is_app(th.arg(0)) and th.arg(0).num_args() == 1:
+                f = th.arg(0).decl()
+                fsubs.append((f, z3.If(z3.Var(0, z3.IntSort()) == cond.arg(1), th.arg(1), z3.IntVal(0))))
+    if fsubs:
+        out = [z3.simplify(z3.substitute_funs(a, *fsubs)) for a in out]
+    return out
+
+
